@@ -128,9 +128,163 @@ fn small_history(w: &rustradio::stream::WriteStream<u32>, r: &rustradio::stream:
     true
 }
 
+/// Child: threads create, use and drop buffers concurrently; "holders" keep pools of small
+/// buffers with known content and re-verify them, "churners" create and drop big ones (also
+/// multiples of 2 MiB).  Every buffer is used by its own thread only, so any disturbance
+/// comes from the mapping set-up / tear-down of *other* buffers.
+/// args: threads rounds seed big(0|1).  Prints one JSON line.
+fn child_churn(args: &[String]) -> i32 {
+    use rustradio::circular_buffer::Buffer;
+    use std::sync::Arc;
+    let threads: usize = args.first().and_then(|s| s.parse().ok()).unwrap_or(4);
+    let rounds: usize = args.get(1).and_then(|s| s.parse().ok()).unwrap_or(100);
+    let seed: u64 = args.get(2).and_then(|s| s.parse().ok()).unwrap_or(1);
+    let big = args.get(3).map(|s| s == "1").unwrap_or(false);
+    let base = (deleted_mappings(), open_fds());
+    fn pat(tag: u64, i: usize) -> u8 {
+        (tag.wrapping_mul(0x9E37_79B9).wrapping_add(i as u64 * 131) >> 3) as u8
+    }
+    /// fill the buffer so that its content straddles the wrap: returns false on any mismatch
+    fn prime(b: &Arc<Buffer<u8>>, tag: u64) -> Result<(), String> {
+        let cap = b.total_size();
+        let lead = cap - cap.min(100);
+        {
+            let mut w = b.clone().write_buf().map_err(|e| format!("{e}"))?;
+            if w.len() != cap {
+                return Err(format!("fresh buffer offers {} of {cap}", w.len()));
+            }
+            w.slice()[..lead].fill(0);
+            w.produce(lead, &[]);
+        }
+        {
+            let (r, _) = b.clone().read_buf().map_err(|e| format!("{e}"))?;
+            r.consume(lead);
+        }
+        let n = cap.min(200);
+        {
+            let mut w = b.clone().write_buf().map_err(|e| format!("{e}"))?;
+            for i in 0..n {
+                w.slice()[i] = pat(tag, i);
+            }
+            w.produce(n, &[]);
+        }
+        Ok(())
+    }
+    /// the primed content must still be there, contiguous across the wrap
+    fn verify(b: &Arc<Buffer<u8>>, tag: u64) -> Result<(), String> {
+        let cap = b.total_size();
+        let n = cap.min(200);
+        let (r, _) = b.clone().read_buf().map_err(|e| format!("{e}"))?;
+        if r.len() != n {
+            return Err(format!("{} samples readable, {n} were committed", r.len()));
+        }
+        for i in 0..n {
+            if r.slice()[i] != pat(tag, i) {
+                return Err(format!("byte {i} of the committed data reads {:#x}, written {:#x} ({}-byte buffer)", r.slice()[i], pat(tag, i), cap));
+            }
+        }
+        Ok(())
+    }
+    /// consume up to the wrap, then the rest must be readable at the start of the first half
+    fn verify_alias(b: &Arc<Buffer<u8>>, tag: u64) -> Result<(), String> {
+        let cap = b.total_size();
+        let n = cap.min(200);
+        let first = cap.min(100);
+        {
+            let (r, _) = b.clone().read_buf().map_err(|e| format!("{e}"))?;
+            if r.len() != n {
+                return Err(format!("{} samples readable, {n} were committed", r.len()));
+            }
+            r.consume(first);
+        }
+        let (r, _) = b.clone().read_buf().map_err(|e| format!("{e}"))?;
+        for i in 0..(n - first) {
+            if r.slice()[i] != pat(tag, first + i) {
+                return Err(format!("after the wrap, byte {i} reads {:#x}, written through the other half {:#x} ({}-byte buffer)", r.slice()[i], pat(tag, first + i), cap));
+            }
+        }
+        Ok(())
+    }
+    let fails: Arc<std::sync::Mutex<Vec<String>>> = Arc::new(std::sync::Mutex::new(Vec::new()));
+    let created = Arc::new(std::sync::atomic::AtomicU64::new(0));
+    std::thread::scope(|sc| {
+        for t in 0..threads.max(2) {
+            let fails = fails.clone();
+            let created = created.clone();
+            sc.spawn(move || {
+                let mut r = crate::gens::XRng::new(seed ^ (t as u64 * 7919));
+                let churner = t % 2 == 0;
+                let mut pool: std::collections::VecDeque<(Arc<Buffer<u8>>, u64)> = std::collections::VecDeque::new();
+                for round in 0..rounds {
+                    if !fails.lock().unwrap().is_empty() {
+                        break;
+                    }
+                    let size = if churner && big {
+                        [2usize << 20, 4 << 20, 2 << 20, 6 << 20][r.below(4) as usize]
+                    } else if churner {
+                        4096 * (1 + r.below(64) as usize)
+                    } else {
+                        4096 * (1 + r.below(8) as usize)
+                    };
+                    let tag = (t as u64) << 32 | round as u64;
+                    let b = match Buffer::<u8>::new(size) {
+                        Ok(b) => Arc::new(b),
+                        Err(e) => {
+                            fails.lock().unwrap().push(format!("create-failed: Buffer::new({size}): {e}"));
+                            break;
+                        }
+                    };
+                    created.fetch_add(1, std::sync::atomic::Ordering::Relaxed);
+                    if let Err(e) = prime(&b, tag).and_then(|_| verify(&b, tag)) {
+                        fails.lock().unwrap().push(format!("data: thread {t} round {round}: {e}"));
+                        break;
+                    }
+                    if churner {
+                        if let Err(e) = verify_alias(&b, tag) {
+                            fails.lock().unwrap().push(format!("alias: thread {t} round {round}: {e}"));
+                            break;
+                        }
+                        drop(b);
+                    } else {
+                        pool.push_back((b, tag));
+                        // re-verify a held buffer: nobody else touches it
+                        let k = r.below(pool.len() as u64) as usize;
+                        if let Err(e) = verify(&pool[k].0, pool[k].1) {
+                            fails.lock().unwrap().push(format!("held-data: thread {t} round {round}, buffer held since round {}: {e}", pool[k].1 & 0xffff_ffff));
+                            break;
+                        }
+                        if pool.len() > 8 {
+                            let (b, tag) = pool.pop_front().unwrap();
+                            if let Err(e) = verify(&b, tag).and_then(|_| verify_alias(&b, tag)) {
+                                fails.lock().unwrap().push(format!("held-data: thread {t} round {round}: {e}"));
+                                break;
+                            }
+                        }
+                    }
+                }
+                while let Some((b, tag)) = pool.pop_front() {
+                    if fails.lock().unwrap().is_empty() {
+                        if let Err(e) = verify(&b, tag) {
+                            fails.lock().unwrap().push(format!("held-data: thread {t} at the end: {e}"));
+                        }
+                    }
+                }
+            });
+        }
+    });
+    let after = (deleted_mappings(), open_fds());
+    let f = fails.lock().unwrap();
+    println!(
+        "{}",
+        json!({"ok": f.is_empty() && after == base, "fails": *f, "base": [base.0, base.1], "after": [after.0, after.1], "created": created.load(std::sync::atomic::Ordering::Relaxed)})
+    );
+    0
+}
+
 pub fn child_main(args: &[String]) -> i32 {
     let mode = args.first().map(|s| s.as_str()).unwrap_or("");
     match mode {
+        "churn" => child_churn(&args[1..]),
         "rlimit" => {
             // args: headroom_kib stream_bytes rounds
             let headroom: u64 = args[1].parse().unwrap();
